@@ -5,7 +5,7 @@ triples L + a q^j) with the exact branch, result and error estimate of the three
 and proves the Geometric / NonNegative / Covariant theorems on that domain.  Every case is replayed
 into the real dea3 as a scalar, scaled by powers of two over 30 orders of magnitude (Covariant
 lemma), and packed together with all other cases into 1-d/2-d/3-d arrays (elementwise)."""
-import numpy as np, random
+import numpy as np, random, warnings
 import vlib
 
 EPS = np.finfo(float).eps
@@ -50,9 +50,11 @@ def run(tier, rep):
             a = [np.float64(v * c) for v in e]
             keep = [float(v) for v in a]
             try:
-                got, gerr = dea3(a[0], a[1], a[2])
+                with warnings.catch_warnings():
+                    warnings.simplefilter('error')       # "raises nothing" also for callers who turn warnings into errors
+                    got, gerr = dea3(a[0], a[1], a[2])
             except Exception as ex:
-                rep.violation('raises', dict(e=e, scale=c), 'dea3 raised %r on %r' % (ex, keep))
+                rep.violation('raises', dict(e=e, scale=c), 'dea3 raised %r on %r (warnings treated as errors)' % (ex, keep))
                 continue
             nscalar += 1
             if [float(v) for v in a] != keep:
